@@ -47,7 +47,8 @@ LOCK3_LISTS = [["steps", "stream-abort", "steps"], ["stream-abort", "steps", "st
 FOCUS = ("try_lock", "lock", "unlock", "is_locked", "_run_step_resource", "_run_steps_resource", "_stream_steps_resource", "streamer",
          "release", "_save_state_resource", "_get_instance_state", "get_instance_states")
 # lists run against a server with a FileAdapter (every stepping request saves the instance state; "save" = GET /save-state)
-ADAPTER_LISTS = [["stream", "save", "steps"], ["steps", "save", "steps"], ["steps", "save", "step"], ["step", "steps", "steps"], ["step", "stream", "steps"]]
+ADAPTER_LISTS = [["stream", "save", "steps"], ["steps", "save", "steps"], ["steps", "save", "step"], ["step", "steps", "steps"], ["step", "stream", "steps"],
+                 ["stream-unstarted", "save"], ["stream-abort", "save"], ["stream", "save"], ["steps", "save"]]
 ERROR_ENDINGS = ["steps-poisoned", "steps-nosettings", "steps-nonumber", "steps-nonjson", "steps-badnumber", "step-poisoned", "step-badjson",
                  "stream-poisoned", "stream-abort", "stream-unstarted"]
 START, STOP, DT = 1.0, 6.0, 1.0
@@ -215,6 +216,14 @@ def run_case(case):
         ending = "abort" if aborted else ("error" if any("-" in r for r in reqs) else "completion")
         vs.append(Violation("lock-not-released:%s:%s" % (ending, "+".join(sorted(set(reqs)))), "instance is still locked after all requests ended (%s); requests %r schedule %r statuses %r"
                             % (ending, reqs, sch.trace, [r[0] for r in results])))
+    elif adapter is not None:
+        # no request is in progress any more: the externalised state must not carry a lock either
+        r_ = c0.post("/load-state")
+        follow = c0.post("/%s/run-step" % iid)
+        if follow.status_code != 200:
+            vs.append(Violation("locked-after-reload:" + "+".join(sorted(set(reqs))),
+                                "after all requests ended and POST /load-state (%d) the follow-up run-step -> %d %r; requests %r schedule %r"
+                                % (r_.status_code, follow.status_code, follow.data[:100], reqs, sch.trace)))
     else:
         follow = c0.post("/%s/run-step" % iid)
         if follow.status_code != 200:
@@ -267,7 +276,7 @@ def plan(tier):
     specs.append({"kind": "endings"})
     for l in ADAPTER_LISTS:
         for part in range(2):
-            specs.append({"kind": "adapter", "reqs": l, "part": part, "of": 2, "two": 40 if tier == "quick" else 200})
+            specs.append({"kind": "adapter", "reqs": l, "part": part, "of": 2, "two": 28 if tier == "quick" else 200})
     if tier == "quick":
         # 3 preemptions over the lock protocol with the first one at point 0 (hands the start to the second request)
         for reqs in LOCK3_LISTS[:2]:
@@ -322,15 +331,16 @@ def run_shard(spec, ctx):
             k = 0
             if spec["part"] == 0:
                 yield {"requests": reqs, "preempt": {}, "focus": True, "adapter": True}
+            chs = (1, 2) if len(reqs) > 2 else (1,)
             for p1 in range(P):
-                for c1 in (1, 2):
+                for c1 in chs:
                     if k % spec["of"] == spec["part"]:
                         yield {"requests": reqs, "preempt": {str(p1): c1}, "focus": True, "adapter": True}
                     k += 1
             W = min(P, spec["two"])
             for p1 in range(W):
                 for p2 in range(p1 + 1, W):
-                    for cs in itertools.product((1, 2), repeat=2):
+                    for cs in itertools.product(chs, repeat=2):
                         if k % spec["of"] == spec["part"]:
                             yield {"requests": reqs, "preempt": {str(p1): cs[0], str(p2): cs[1]}, "focus": True, "adapter": True}
                         k += 1
